@@ -677,6 +677,8 @@ class TaskScenario(ScenarioData):
             previous_effort = self.doneEffort
 
             self.currentSlotIdx += delta
+            # The dependency bound lies inside the first slot only: later slots are taken from their beginning
+            self.slotStartOffset = 0.0
             if self.currentSlotIdx < lowerLimit or self.currentSlotIdx > upperLimit:
                 self.isRunAway = True
                 return False
